@@ -433,12 +433,34 @@ def _r79(ctx, prog):
         n += 1
         key = "%s.index" % c.name
         p = f.params[1] if len(f.params) > 1 else None
-        by_is = [x for x in ast.walk(f.node) if isinstance(x, ast.Compare) and len(x.ops) == 1 and isinstance(x.ops[0], (ast.Is, ast.IsNot))
-                 and p in (dotted(x.left), dotted(x.comparators[0]))]
-        by_eq = [x for x in ast.walk(f.node) if isinstance(x, ast.Compare) and len(x.ops) == 1 and isinstance(x.ops[0], (ast.Eq, ast.NotEq, ast.In, ast.NotIn))
-                 and p in (dotted(x.left), dotted(x.comparators[0]))]
-        by_eq += [x for x in ast.walk(f.node) if isinstance(x, ast.Call) and isinstance(x.func, ast.Attribute) and x.func.attr in ("index", "count")
-                  and x.args and dotted(x.args[0]) == p and dotted(x.func.value) not in ("self._parent",)]
+        from sa.inline import resolve_callee as _rc79
+
+        by_is, by_eq = [], []
+        todo, seen79 = [(f, p)], set()
+        while todo:
+            g_, pn = todo.pop()
+            if (g_, pn) in seen79 or len(seen79) > 4:
+                continue
+            seen79.add((g_, pn))
+            gn = g_.node
+            by_is += [x for x in ast.walk(gn) if isinstance(x, ast.Compare) and len(x.ops) == 1 and isinstance(x.ops[0], (ast.Is, ast.IsNot))
+                      and pn in (dotted(x.left), dotted(x.comparators[0]))]
+            by_eq += [x for x in ast.walk(gn) if isinstance(x, ast.Compare) and len(x.ops) == 1 and isinstance(x.ops[0], (ast.Eq, ast.NotEq, ast.In, ast.NotIn))
+                      and pn in (dotted(x.left), dotted(x.comparators[0]))]
+            by_eq += [x for x in ast.walk(gn) if isinstance(x, ast.Call) and isinstance(x.func, ast.Attribute) and x.func.attr in ("index", "count")
+                      and x.args and dotted(x.args[0]) == pn and dotted(x.func.value) not in ("self._parent",)]
+            # the search may live in a helper the node is handed to
+            for c_ in [x for x in ast.walk(gn) if isinstance(x, ast.Call) and any(dotted(a_) == pn for a_ in x.args)]:
+                try:
+                    rc_ = _rc79(prog, g_, c_, {})
+                except Exception:  # noqa: BLE001
+                    rc_ = None
+                if rc_ is not None and hasattr(rc_[0], "node") and hasattr(rc_[0], "params") and rc_[0].module is f.module:
+                    h_ = rc_[0]
+                    hps = h_.params[1:] if rc_[1] else h_.params
+                    for i_, a_ in enumerate(c_.args):
+                        if dotted(a_) == pn and i_ < len(hps):
+                            todo.append((h_, hps[i_]))
         if by_eq and value_eq:
             ctx.violation("R7.9", key, "%s looks the node up by equality (`%s`) and %s defines a value-style __eq__ (line %d): of two siblings with the "
                           "same label the first is found, so a repeated label gets the idx of its first occurrence" % (
